@@ -158,7 +158,7 @@ TResult == /\ E.e = "Result" /\ Step /\ UNCHANGED <<cur, evs>> /\ open' = FALSE
            /\ LET wrong == IF E.code = OK THEN WrongOK(cur.c, E) ELSE WrongRejected(cur.c, E)
               IN wrong = {} \/ Bad([wrong |-> wrong, code |-> E.code, atoms |-> Mismatches(cur.c)])
 TCrash == /\ E.e \in {"Crash", "Hang", "Throw"} /\ Step /\ UNCHANGED <<cur, evs>> /\ open' = FALSE
-          /\ Bad([wrong |-> {IF E.e = "Crash" THEN "crash-" \o E.cls ELSE E.e}, code |-> -1])
+          /\ Bad([wrong |-> {IF E.e = "Crash" THEN "crash-" \o (IF "cls" \in DOMAIN E THEN E.cls ELSE "harness") ELSE E.e}, code |-> -1])
 TAtoms == /\ E.e = "Atoms" /\ Step /\ UNCHANGED <<cur, evs, open>>
           /\ (Len(E.cls) = Cardinality(Atoms) /\ \A a \in Atoms : E.cls[a + 1] = AtomClass(a))
              \/ Bad([wrong |-> {"atoms"}, code |-> -1])
